@@ -463,7 +463,7 @@ class HierOps:
                     d += 1
                 cls = f'continue-at-depth-{d}'
         fn = lambda t_: t_.append(tuple(raw))
-        st, r = call(fn, e.obj)
+        st, r = self._grow_call(e, fn, exp)
         if st == 'raise':
             return self._growth_failed(e, op, site, cls, [tuple(raw)], r, 'accept' if exp == 'accept' else exp, fn)
         if exp == 'must':
@@ -540,7 +540,7 @@ class HierOps:
             else:
                 exp, cls = 'may-accept', 'outer-overlap@' + ('first' if first_bad == 0 else 'later')
         fn = lambda t_: t_.extend(other)
-        st, r = call(fn, e.obj)
+        st, r = self._grow_call(e, fn, exp)
         if st == 'raise':
             return self._growth_failed(e, op, site, cls, tuples, r, 'accept' if exp == 'accept' else exp, fn)
         if exp == 'may':
